@@ -512,6 +512,74 @@ pub fn skewed_history(seed: u64, thorough: bool) -> History {
     }
 }
 
+/// C04 "survives overwrites": a built single- or two-tree index in which a quarter of the items is then overwritten
+/// by vectors that some metric cannot tell from the old ones although they point elsewhere (quarter turns: inner
+/// product exactly 0; scaled copies; sign flips; differences below f32 resolution), plus one new item; rebuilt and searched.
+pub fn overwrite_history(seed: u64) -> History {
+    let mut rng = StdRng::seed_from_u64(seed);
+    let metric = *[Metric::DotProduct, Metric::DotProduct, Metric::Cosine, Metric::Euclidean, Metric::Manhattan, Metric::BqCosine, Metric::BqEuclidean].choose(&mut rng).unwrap();
+    let dim = *[2usize, 3, 4, 5].choose(&mut rng).unwrap();
+    let n = rng.gen_range(24..=72u32);
+    let unit = rng.gen_bool(0.5);
+    let mut vecs: Vec<Vec<f32>> = (0..n)
+        .map(|_| {
+            let v: Vec<f32> = (0..dim).map(|_| if unit { rng.gen_range(-1.0f32..1.0) } else { rng.gen_range(-4i32..=4) as f32 }).collect();
+            if unit {
+                let norm = v.iter().map(|x| x * x).sum::<f32>().sqrt().max(1e-3);
+                v.iter().map(|x| x / norm).collect()
+            } else {
+                v
+            }
+        })
+        .collect();
+    let items: Vec<(u32, Vec<u32>)> = vecs.iter().enumerate().map(|(i, v)| (i as u32, bits(v))).collect();
+    let o = |rng: &mut StdRng| BuildOpts { n_trees: Some(*[1usize, 1, 2].choose(rng).unwrap()), split_after: *[None, Some(3usize), Some(6)].choose(rng).unwrap(), seed: rng.gen(), ..Default::default() };
+    let mut ops = vec![Op::AddMany { idx: 0, items }, Op::Build { idx: 0, o: o(&mut rng) }, Op::Search { idx: 0, seed: rng.gen() }, Op::Commit];
+    for round in 0..2 {
+        for id in (0..n).filter(|i| (i + round) % 4 == 0) {
+            let old = vecs[id as usize].clone();
+            let mut new = vec![0.0f32; dim];
+            match rng.gen_range(0..5) {
+                0 | 1 => {
+                    new[0] = -old[1];
+                    new[1] = old[0];
+                }
+                2 => {
+                    let k = [2.0f32, 0.5, 1e-3][rng.gen_range(0..3)];
+                    for j in 0..dim {
+                        new[j] = old[j] * k;
+                    }
+                }
+                3 => {
+                    for j in 0..dim {
+                        new[j] = -old[j];
+                    }
+                }
+                _ => {
+                    for j in 0..dim {
+                        new[j] = old[j] + 1e-30;
+                    }
+                }
+            }
+            vecs[id as usize] = new.clone();
+            ops.push(Op::Add { idx: 0, id, v: bits(&new) });
+        }
+        ops.push(Op::Add { idx: 0, id: n + round, v: bits(&vecs[0]) });
+        ops.push(Op::Build { idx: 0, o: o(&mut rng) });
+        ops.push(Op::Search { idx: 0, seed: rng.gen() });
+        ops.push(Op::Commit);
+    }
+    History {
+        indexes: vec![IndexDecl { idx: 0, metric, dim }],
+        ops,
+        map_size: 256 * 1024 * 1024,
+        label: format!("overwrite:{seed}"),
+        faults: vec![],
+        max_polls: 2_000_000,
+        sides: true,
+    }
+}
+
 pub fn metric_of(h: &History) -> Metric {
     h.indexes[0].metric
 }
